@@ -18,7 +18,7 @@ from klongpy.core import KGChar, KGSym
 
 from harness.canon import canon
 
-BUDGET = 4000          # verb applications / interpreter evaluations per case (deterministic kill budget)
+BUDGET = 300           # verb applications / interpreter evaluations per case (deterministic kill budget)
 
 
 class Budget(Exception):
